@@ -103,6 +103,7 @@ type vnNet struct {
 	backend  string
 	dir      string
 	part     map[int]int // node -> partition id (nil = all connected)
+	blackhole bool       // partitioned sync streams stay open and silent instead of failing
 	sched    *vlib.Sched
 	activity int64
 	// counters for settle(), by node address
@@ -402,7 +403,19 @@ func (c *vnClient) SyncChain(ctx context.Context, p net.Peer, in *proto.SyncRequ
 	if to != nil {
 		toIdx = to.idx
 	}
-	vn.tr.Emit("SyncOpen", vlib.E{"node": c.from.idx, "peer": toIdx, "from": in.FromRound, "ok": ok})
+	vn.mu.Lock()
+	hole := !ok && vn.blackhole && to != nil && vn.part != nil
+	vn.mu.Unlock()
+	vn.tr.Emit("SyncOpen", vlib.E{"node": c.from.idx, "peer": toIdx, "from": in.FromRound, "ok": ok, "silent": hole})
+	if hole {
+		// half-open connection: the stream is accepted but nothing ever arrives on it
+		ch := make(chan *proto.BeaconPacket)
+		go func() {
+			<-ctx.Done()
+			close(ch)
+		}()
+		return ch, nil
+	}
 	if !ok {
 		return nil, errors.New("vn: peer unreachable")
 	}
@@ -957,6 +970,7 @@ func (r *vnRun) exec(st vnStep) {
 	case "partition":
 		vn.mu.Lock()
 		vn.part = map[int]int{}
+		vn.blackhole = st.Mode == "blackhole"
 		for pi, p := range st.Parts {
 			for _, i := range p {
 				vn.part[i] = pi + 1
